@@ -155,6 +155,18 @@ def corpus(rng, tier):
             toks = split_tokens(rng, parts, "all")
             ctx = "<mi>x</mi><mo>=</mo>{N}<mo>%s</mo>" % xml([("x", dec)])[3:-4]
             out.append((loc, ctx.replace("{N}", xml(whole)), ctx.replace("{N}", xml(toks)), "sentence-own-mark"))
+        # a number that starts with the decimal mark (.5  /  ,5) as the first thing of its row, alone and followed by another
+        # split number of the same row
+        for _ in range(2 if tier == "quick" else 12):
+            frac = "".join(rng.choice("0123456789") for _ in range(rng.randint(1, 3)))
+            other = gen_number(rng, loc)
+            if not any(k == "p" for k, _ in other):
+                other += [("p", dec), ("d", "5")]
+            n_whole, n_split = xml([("mn", dec + frac)]), xml([("mo", dec), ("mn", frac)])
+            m_whole, m_split = xml([("mn", "".join(s_ for _, s_ in other))]), xml(split_tokens(rng, other, "all"))
+            for cname, ctx in (("leading-mark-row", "{N}<mo>+</mo>{M}"), ("leading-mark-exponent", "<msup><mi>x</mi><mrow>{N}</mrow></msup>"),
+                               ("leading-mark-numerator", "<mfrac><mrow>{N}<mo>+</mo>{M}</mrow><mn>2</mn></mfrac>")):
+                out.append((loc, ctx.replace("{N}", n_whole).replace("{M}", m_whole), ctx.replace("{N}", n_split).replace("{M}", m_split), cname))
         for adv in ADVERSARIAL:
             out.append((loc, None, adv, "adversarial"))
     return out
